@@ -1,8 +1,8 @@
 package medialib
 
 import (
-	"github.com/cnotch/ipchub/av/format/flv"
 	"fmt"
+	"github.com/cnotch/ipchub/av/format/flv"
 	"runtime"
 	"strings"
 	"sync"
@@ -541,6 +541,140 @@ func ScStapParamsetsIdr(hevc bool) Outcome {
 		return Outcome{Name: name, Fail: fmt.Sprintf("joiner after [STAP(SPS,PPS,IDR), P, P] received %v, expected [1 2 3]: the aggregation packet is cached as 'the SPS packet', the key frame is not recognised and the GOP cache never starts", d)}
 	}
 	return Outcome{Name: name}
+}
+
+// ScStalledAtStreamEnd: the delivery goroutine is blocked inside Consume (a client that stopped
+// reading) when the stream ends.  Property (C03): the consumer's connection is closed promptly.
+// The code closes a transport only from its own delivery goroutine, so a blocked one is released
+// only when its write returns (open finding stalled-consumer-not-released-at-stream-end); once it
+// does return the release must happen, exactly once.
+func ScStalledAtStreamEnd(flvTable bool, hevc bool) Outcome {
+	name := "stalled-consumer-not-released-at-stream-end"
+	w := NewWorld(hevc, false)
+	r := w.NewRec()
+	if flvTable {
+		r.Flv = true
+		r.CID = w.S.StartConsumeNoGopCache(r, media.FLVPacket, "verif")
+	} else {
+		w.Join(r, false)
+	}
+	r.Stall()
+	for i := 0; i < 2; i++ {
+		if flvTable {
+			w.S.WriteFlvTag(&flv.Tag{TagType: flv.TagTypeVideo, Timestamp: uint32(i), Data: []byte{0x27, 1, 0, 0, 0, byte(i)}})
+		} else {
+			w.Publish(KNonKey, 2)
+		}
+	}
+	if !Eventually(waitBudget, r.Blocked) {
+		w.S.Close()
+		r.Resume()
+		return Outcome{Name: name, Skipped: "the consumer never entered Consume"}
+	}
+	w.S.Close()
+	time.Sleep(300 * time.Millisecond)
+	releasedWhileBlocked := r.CloseCalls() >= 1
+	r.Resume()
+	if !Eventually(waitBudget, func() bool { return r.CloseCalls() >= 1 }) {
+		return Outcome{Name: "stalled-consumer-never-released", Fail: "a consumer that was blocked inside Consume when the stream ended is not released even after its write returned", Detail: w.Observe()}
+	}
+	time.Sleep(2 * time.Millisecond)
+	if n := r.CloseCalls(); n != 1 {
+		return Outcome{Name: "stalled-consumer-never-released", Fail: fmt.Sprintf("Consumer.Close called %d times", n), Detail: w.Observe()}
+	}
+	if !releasedWhileBlocked {
+		return Outcome{Name: name, Fail: "the stream ended while the delivery goroutine was blocked inside Consume: the consumer's connection is not closed until its write returns (Consumer.Close is only ever called by that goroutine)", Detail: "Close calls after 300 ms: 0"}
+	}
+	return Outcome{Name: name}
+}
+
+// ScSelfStop: the consumer stops its own consumption from inside Consume (what every transport
+// does on a write error).  Property (C04/C03): it is detached and closed exactly once, the
+// publisher and the other consumer are unaffected.
+func ScSelfStop(flvTable bool, hevc bool) Outcome {
+	name := "consumer-stops-itself"
+	if flvTable {
+		name += "-flv"
+	}
+	w := NewWorld(hevc, true)
+	defer w.S.Close()
+	good := w.NewRec()
+	w.Join(good, false)
+	bad := w.NewRec()
+	bad.SelfStopAt = 2
+	if flvTable {
+		bad.Flv = true
+		bad.SelfStopAt = 1 // the recording consumer does not count FLV tags: stop at the first one
+		bad.CID = w.S.StartConsumeNoGopCache(bad, media.FLVPacket, "verif")
+		for i := 0; i < 3; i++ {
+			w.S.WriteFlvTag(&flv.Tag{TagType: flv.TagTypeVideo, Timestamp: uint32(i), Data: []byte{0x27, 1, 0, 0, 0, byte(i)}})
+		}
+	} else {
+		w.Join(bad, false)
+	}
+	pubDone := make(chan struct{})
+	go func() {
+		defer close(pubDone)
+		for i := 0; i < 40; i++ {
+			w.Publish(KNonKey, 3)
+		}
+	}()
+	select {
+	case <-pubDone:
+	case <-time.After(waitBudget):
+		return Outcome{Name: name, Fail: "the publisher is blocked by a consumer that stopped itself", Detail: w.Observe()}
+	}
+	detached := func() bool {
+		rtpT, flvT, _, _ := w.S.VerifTables()
+		for _, c := range append(rtpT, flvT...) {
+			if c.CID == bad.CID {
+				return false
+			}
+		}
+		return bad.CloseCalls() >= 1
+	}
+	if !Eventually(waitBudget, detached) {
+		return Outcome{Name: name, Fail: fmt.Sprintf("a consumer that stopped itself inside Consume is not detached and closed: Close calls %d, consumer count %d", bad.CloseCalls(), w.S.ConsumerCount()), Detail: w.Observe()}
+	}
+	time.Sleep(2 * time.Millisecond)
+	if n := bad.CloseCalls(); n != 1 {
+		return Outcome{Name: name, Fail: fmt.Sprintf("Consumer.Close called %d times", n), Detail: w.Observe()}
+	}
+	if !Eventually(waitBudget, func() bool { return len(good.Delivered()) == 40 }) {
+		return Outcome{Name: name, Fail: fmt.Sprintf("the other consumer received %d of 40 packets", len(good.Delivered())), Detail: w.Observe()}
+	}
+	return Outcome{Name: name}
+}
+
+// ScGopReplayNonVideo: audio published after the key frame is not part of the replay (the caches
+// keep video packets only).  Property (C02): "every packet from the start of the most recent key
+// frame onward" — open finding gop-replay-omits-non-video.
+func ScGopReplayNonVideo(hevc bool) Outcome {
+	name := "gop-replay-omits-non-video"
+	w := NewWorld(hevc, true)
+	defer w.S.Close()
+	if hevc {
+		w.Publish(KVps, 2)
+	}
+	w.Publish(KSps, 2)
+	w.Publish(KPps, 2)
+	w.Publish(KKey, 2)
+	w.Publish(KAudio, 2)
+	w.Publish(KNonKey, 2)
+	r := w.NewRec()
+	w.Join(r, true)
+	if !w.Quiesce() {
+		return Outcome{Name: "gop-replay-no-quiescence", Skipped: "no quiescence"}
+	}
+	d := r.Delivered()
+	var all []uint32
+	for u := uint32(1); u <= w.nextID; u++ {
+		all = append(all, u)
+	}
+	if fmt.Sprint(d) == fmt.Sprint(all) {
+		return Outcome{Name: name}
+	}
+	return Outcome{Name: name, Fail: fmt.Sprintf("joiner after [parameter sets, key, AUDIO, non-key] was replayed %v of %v: the audio packet published since the key frame is not in the replay (CachePack ignores every channel but video)", d, all)}
 }
 
 // ScPanicBadClose: a consumer panics in Consume AND its Close misbehaves (panics, or blocks for good).
